@@ -170,8 +170,13 @@ fn c09_hypotheses(f: &Flow) -> bool {
 
 fn eval_flow(case: &str) -> Out {
     let (f, rnd_text) = match parse_flow(case) { Some(x) => x, None => return Out::ok("harnesserr parse".into()) };
-    let hyp = c09_hypotheses(&f);
     let r = run_flow(&f);
+    finish_flow(&f, &rnd_text, r)
+}
+fn finish_flow(f: &Flow, rnd_text: &[String], r: FlowRun) -> Out {
+    let f = f.clone();
+    let rnd_text: Vec<String> = rnd_text.to_vec();
+    let hyp = c09_hypotheses(&f);
     if let Some(e) = &r.fail {
         let pred_fail = if hyp && !e.starts_with("harnesserr") { Some(format!("multiparty-blinding-failed|a valid multi-party blinding flow fails: {}", e)) } else { None };
         return Out { result: e.clone(), pred_fail };
@@ -216,6 +221,7 @@ fn eval_flow(case: &str) -> Out {
             if unb.is_empty() { "-".to_string() } else { unb.join(",") }, proofs as u8), pred_fail }
 }
 pub fn eval(case: &str) -> Out {
+    if let Some(o) = memo_take(case) { return o; }
     match case.split(' ').nth(1).unwrap_or("") { "flow" => eval_flow(case), _ => Out::ok("harnesserr kind".into()) }
 }
 
@@ -274,7 +280,12 @@ fn flow_case(f: &Flow, mut tags: Vec<String>) -> Case {
     if f.outs.iter().any(|o| o.key.is_none() && !o.script.is_empty()) { tags.push("explicit-output".into()); }
     if f.order.windows(2).any(|w| w[0] > w[1]) { tags.push("order-permuted".into()); }
     if f.parties.iter().any(|p| f.outs.iter().filter(|o| o.owner.map(|b| p.contains(&b)).unwrap_or(false)).count() > 1) { tags.push("several-outputs-per-party".into()); }
-    Case { text: format!("C09 flow prof=d {}", fmt_flow(f, &rnd)), tags, nontrivial: r.fail.is_none() && f.outs.iter().any(|o| o.key.is_some()) }
+    let text = format!("C09 flow prof=d {}", fmt_flow(f, &rnd));
+    let nontrivial = r.fail.is_none() && f.outs.iter().any(|o| o.key.is_some());
+    let rnd_text: Vec<String> = rnd.iter().map(|v| if v.is_empty() { "-".to_string() } else { v.join(",") }).collect();
+    // a failed flow was recorded with substitute randomness: let eval compute it from the text
+    if r.fail.is_none() { let o = finish_flow(f, &rnd_text, r); memo_put(&text, &o); }
+    Case { text, tags, nontrivial }
 }
 
 pub fn gen(rng: &mut ChaCha20Rng, n: usize, thorough: bool) -> Vec<Case> {
